@@ -420,10 +420,12 @@ class CachedFcn(UserFcn):
             and all(self._same(kwds[k], self.lastKwds[k]) for k in kwds)
         ):
             return self.lastReturn
+        # evaluate first: if the function raises, the cache must not pair these arguments with the old value
+        ret = super().__call__(*args, **kwds)
         self.lastArgs = args
         self.lastKwds = kwds
-        self.lastReturn = super().__call__(*args, **kwds)
-        return self.lastReturn
+        self.lastReturn = ret
+        return ret
 
     def __repr__(self):
         return f"CachedFcn({self.expr}, {self.name})"
